@@ -87,7 +87,8 @@ pub fn run(input: &str, out: &str, threads: usize) -> Result<Value, String> {
                 });
                 let ids: Vec<String> = c["chain"].as_array().unwrap().iter().map(|a| a.as_str().unwrap().to_string()).collect();
                 let chain: CertificateChain = ids.iter().map(|a| built.der[a].clone()).collect::<Vec<_>>().into();
-                let t = Some(at(c["t"].as_u64().unwrap()));
+                // 99999 = X509.tla NoTime: no validation time is given
+                let t = match c["t"].as_u64().unwrap() { 99999 => None, x => Some(at(x)) };
                 let want_key = &built.leaf_keys[&ids[0]];
                 let a = std::panic::catch_unwind(std::panic::AssertUnwindSafe(|| match &vals.0 { Ok(v) => verdict(v.validate(&chain, t), want_key), Err(e) => ("setup-error".into(), e.clone()) })).unwrap_or(("panic".into(), String::new()));
                 let o = std::panic::catch_unwind(std::panic::AssertUnwindSafe(|| match &vals.1 { Ok(v) => verdict(v.validate_chain(&chain, t), want_key), Err(e) => ("setup-error".into(), e.clone()) })).unwrap_or(("panic".into(), String::new()));
